@@ -1382,6 +1382,7 @@ func runC04(c *core.Ctx) core.Meta {
 	checkDSOffsetForms(c, t)
 	checkPrinterReadsWholeOperand(c)
 	checkDisassembleAdvances(c)
+	checkNoStateBetweenCalls(c, "R04.42", "disassembling a file is a function of that file: the functions reached from Disassembler.Disassemble store nothing into the Disassembler (the running instruction id excepted) and keep nothing in package-level variables. A symbol table cached in the object on the first call decides where kernels start in every later file: headers are decoded as instructions and code is skipped, and a reused decoder disagrees with a fresh one on the same input", 5, instsPkg, []string{"Disassembler.Disassemble"}, map[string]string{"nextInstID": "a running id, never read back by the decoder", "FormatTable": "the constant format table", "Regs": "the constant register table"})
 	checkFLATOperands(c, t)
 	checkSMEMOperands(c, t)
 	checkSOP2Operands(c, t)
